@@ -402,7 +402,7 @@ package xmpp
 //@   loop 1
 //@     invariant[C01,C02,C04] list != nil && list.cache != nil
 //@     invariant[C01,C02,C04] s.state & old(s.state) == old(s.state)
-//@     invariant[C01,C02,C04] unchanged(s.in.d) && s.negotiated == old(s.negotiated) && s.features == old(s.features)
+//@     invariant[C01,C02,C04] unchanged(s.in.d) && s.negotiated == old(s.negotiated) && s.features == old(s.features) && unchanged(features)
 //@     invariant[C01,C02,C04] forall k string :: has(list.cache, k) ==> list.cache[k].feature.Name.Space == k && (list.cache[k].req ==> list.req)
 //@     invariant[C01,C02,C04] forall k string :: has(list.cache, k) ==> exists i int :: 0 <= i && i < len(features) && features[i] == list.cache[k].feature
 //@     invariant[C01,C02,C04] !server ==> forall k string :: has(list.cache, k) ==> list.cache[k].feature.Name.Local != ""
